@@ -57,7 +57,6 @@ fn permutations(items: &[usize]) -> Vec<Vec<usize>> {
 }
 
 fn main() {
-    vx_core::quiet_error_backtraces();
     let check = Check::from_args("C17", Level::Exploration);
     // component texts: no '^', no '=', no leading/trailing space (the statement's precondition)
     let texts: Vec<&'static str> = if check.quick() {
